@@ -199,3 +199,43 @@ func portKey(i int) *Case {
 	}
 	return c
 }
+
+// portRange: a short-syntax port range that meets a declaration of one of its ports (made by the
+// earlier layer, by the same range repeated, by a long entry in the later layer, or earlier in the
+// same list): a range is one entry per port, each entry keyed like any other port.
+func portRange(i int) *Case {
+	type pr struct{ l1, l2, target string }
+	item := func(xs ...string) string {
+		var sb strings.Builder
+		for _, x := range xs {
+			sb.WriteString("      - " + x + "\n")
+		}
+		return sb.String()
+	}
+	cases := []pr{
+		{item(`"8081:81"`), item(`"8080-8081:80-81"`), item(`"8080:80"`, `"8081:81"`)},
+		{item(`"8080-8082:80-82/udp"`), item(`"8080-8082:80-82/udp"`), item(`"8080-8082:80-82/udp"`)},
+		{item(`"8080-8081:80-81"`), item(`{target: 81, published: "8081", name: x}`), item(`"8080:80"`, `{target: 81, published: "8081", name: x}`)},
+		{item(`"8081:81"`, `"8080-8081:80-81"`), "", item(`"8080:80"`, `"8081:81"`)},
+		{item(`{target: 80, published: "8080", protocol: tcp}`), item(`"8080-8081:80-81"`), item(`"8080:80"`, `"8081:81"`)},
+		{item(`"127.0.0.1:9000-9001:90-91"`), item(`"127.0.0.1:9001:91"`, `"9001:91"`), item(`"127.0.0.1:9000:90"`, `"127.0.0.1:9001:91"`, `"9001:91"`)},
+	}
+	k := cases[i%len(cases)]
+	asDocs := (i/len(cases))%2 == 1
+	l1 := "services:\n  s:\n    image: img\n    ports:\n" + k.l1
+	l2 := "services:\n  s:\n    labels: {later: \"1\"}\n"
+	if k.l2 != "" {
+		l2 += "    ports:\n" + k.l2
+	}
+	target := "services:\n  s:\n    image: img\n    labels: {later: \"1\"}\n    ports:\n" + k.target
+	c := &Case{Focus: "services.ports (a short-syntax range meeting a declaration of one of its ports)", Parts: 2}
+	c.Target = ld.Case{Files: map[string]string{"compose.yaml": target}, ComposeFiles: []string{"compose.yaml"}}
+	if asDocs {
+		c.Carrier = "documents"
+		c.Split = ld.Case{Files: map[string]string{"compose.yaml": l1 + "---\n" + l2}, ComposeFiles: []string{"compose.yaml"}}
+	} else {
+		c.Carrier = "files"
+		c.Split = ld.Case{Files: map[string]string{"compose.yaml": l1, "compose.1.yaml": l2}, ComposeFiles: []string{"compose.yaml", "compose.1.yaml"}}
+	}
+	return c
+}
